@@ -136,6 +136,8 @@ fn oracle(log: &[Obs], stream_dropped_at: Option<usize>) -> V {
     let busy = busy_intervals(log);
     // the producer never runs ahead of the consumer, also while requests are being answered (C13's clause; same log)
     crate::props::c13::emission_order(log)?;
+    // every request of a check carries the parameters the policy returned for it, whatever requests arrive meanwhile (C05's clause; same log)
+    crate::props::c05::requests_follow_policy(log)?;
     // (2) truthfulness
     let mut used: Vec<usize> = vec![];
     for r in &reqs {
@@ -305,11 +307,15 @@ fn oracle(log: &[Obs], stream_dropped_at: Option<usize>) -> V {
 /// C13's part "emissions-under-control-requests": the one-request exploration of this module judged
 /// by the emission-order oracle only.
 pub fn run_emissions(ctx: &RunCtx, tier: Tier) -> RunOut {
+    run_filtered(ctx, tier, &["before the consumer took", "lost wake-up", "deadlock"])
+}
+
+/// The one-request exploration of this module, keeping only violations whose key contains one of `keep`
+/// (used by sibling properties that judge the same executions by their own clause).
+pub fn run_filtered(ctx: &RunCtx, tier: Tier, keep: &[&str]) -> RunOut {
     let mut out = run(ctx, tier, 1);
     if let Some(v) = out.violation.as_ref() {
-        // keep only C13's own clauses
-        let k = &v.key;
-        if !(k.contains("before the consumer took") || k.contains("lost wake-up") || k.contains("deadlock")) {
+        if !keep.iter().any(|k| v.key.contains(k)) {
             out.violation = None;
         }
     }
